@@ -114,10 +114,17 @@ Val convertVal(const Val& v, const FSpec& from, const FSpec& to)
         if (toEVP) return Val::Inf();
         return Val::Un();
     }
-    (void) from;
     switch (to.range) {
         case 'B': return Val::I(v.num() != 0 ? 1 : 0);
-        case 'I': return Val::I(v.t == VR ? long(v.d) : v.i);
+        case 'I':
+            if (v.t == VR && from.label == 'T') {
+                // EV* values are products of float edge values; the library's float product and
+                // the harness' product may fall on different sides of an integer, and truncation
+                // is discontinuous there
+                double n = std::nearbyint(v.d);
+                if (std::fabs(v.d - n) <= 1e-4 * (1.0 + std::fabs(n))) return Val::Un();
+            }
+            return Val::I(v.t == VR ? long(v.d) : v.i);
         default:  return Val::R(v.num());
     }
 }
@@ -150,6 +157,8 @@ ModelRes modelUnary(const World& W, const std::string& op, int fa, const Table& 
         for (size_t i = 0; i < A.size(); i++) M.T[i] = A[i].isUn() ? A[i] : Val::I(A[i].i >= 0 ? A[i].i + 1 : A[i].i);
     } else if (op.compare(0, 2, "U_") == 0) {
         if (SC.label == 'X' || SA.label == 'X') { M.defined = false; M.skipwhy = "usermap-indexset"; return M; }
+        // x*x mod 7 amplifies the float rounding of real-valued forests beyond any stated tolerance
+        if (op == "U_sqm7" && SA.range == 'R') { M.defined = false; M.skipwhy = "usermap-highgain-real"; return M; }
         for (size_t i = 0; i < A.size(); i++) {
             if (A[i].isUn()) { M.T[i] = A[i]; continue; }
             Val y;
@@ -187,14 +196,13 @@ static bool isCompare(const std::string& op)
 }
 
 ModelRes modelBinary(const World& W, const std::string& op, int fa, const Table& A, int fb,
-                     const Table& B, int fc, bool sameEdge)
+                     const Table& B, int fc, bool strict)
 {
     ModelRes M;
     const FSpec& SA = W.fs[fa];
     const FSpec& SB = W.fs[fb];
     const FSpec& SC = W.fs[fc];
     auto undef = [&](const char* why) { M.defined = false; M.skipwhy = why; return M; };
-    (void) sameEdge;
 
     if (op == "CROSS") {
         if (SA.rel || SB.rel || !SC.rel) return undef("cross-shape");
@@ -243,10 +251,13 @@ ModelRes modelBinary(const World& W, const std::string& op, int fa, const Table&
         if (op == "MODULO" && SA.range != 'I') return undef("mod-real");
         const bool evp = SA.label == 'P';
         const bool real = SA.range == 'R';
-        bool needDivZero = false, needSubInf = false, needInfInf = false, infMinusInf = false;
+        bool needDivZero = false, proneDivZero = false, needSubInf = false, needInfInf = false, infMinusInf = false, unspecOperand = false;
+        // a zero divisor met where the dividend is zero too can be absorbed by the library's
+        // 0/x, x/x shortcuts (known finding): only asserted in strict mode
+        auto divz = [&](const Val& a) { if (!a.isInf() && a.num() == 0) proneDivZero = true; else needDivZero = true; };
         for (size_t i = 0; i < A.size(); i++) {
             const Val &a = A[i], &b = B[i];
-            if (a.isUn() || b.isUn()) { M.T[i] = Val::Un(); continue; }
+            if (a.isUn() || b.isUn()) { M.T[i] = Val::Un(); unspecOperand = true; continue; }
             if (a.isInf() || b.isInf()) {
                 if (!evp) return undef("inf-outside-evplus");
                 Val r = Val::Un();
@@ -264,12 +275,12 @@ ModelRes modelBinary(const World& W, const std::string& op, int fa, const Table&
                 } else if (op == "DIVIDE") {
                     if (a.isInf() && b.isInf()) { needInfInf = true; r = Val::Un(); }
                     else if (b.isInf()) r = Val::I(0);
-                    else if (b.i == 0) { needDivZero = true; r = Val::Un(); }
+                    else if (b.i == 0) { divz(a); r = Val::Un(); }
                     else r = Val::Inf();
                 } else if (op == "MODULO") {
                     if (a.isInf() && b.isInf()) { needInfInf = true; r = Val::Un(); }
                     else if (!a.isInf() && b.isInf()) r = Val::Un();     // x mod inf: undocumented
-                    else if (b.i == 0) { needDivZero = true; r = Val::Un(); }
+                    else if (b.i == 0) { divz(a); r = Val::Un(); }
                     else r = Val::Un();                                 // inf mod x: undocumented
                 }
                 M.T[i] = r;
@@ -280,7 +291,7 @@ ModelRes modelBinary(const World& W, const std::string& op, int fa, const Table&
                 if (op == "PLUS") r = x + y;
                 else if (op == "MINUS") r = x - y;
                 else if (op == "MULTIPLY") r = x * y;
-                else if (op == "DIVIDE") { if (y == 0) { needDivZero = true; M.T[i] = Val::Un(); continue; } r = x / y; }
+                else if (op == "DIVIDE") { if (y == 0) { divz(a); M.T[i] = Val::Un(); continue; } r = x / y; }
                 else if (op == "MAXIMUM") r = x > y ? x : y;
                 else r = x < y ? x : y;
                 M.T[i] = Val::R(r);
@@ -289,8 +300,8 @@ ModelRes modelBinary(const World& W, const std::string& op, int fa, const Table&
                 if (op == "PLUS") r = x + y;
                 else if (op == "MINUS") r = x - y;
                 else if (op == "MULTIPLY") r = x * y;
-                else if (op == "DIVIDE") { if (y == 0) { needDivZero = true; M.T[i] = Val::Un(); continue; } r = x / y; }
-                else if (op == "MODULO") { if (y == 0) { needDivZero = true; M.T[i] = Val::Un(); continue; } r = x % y; }
+                else if (op == "DIVIDE") { if (y == 0) { divz(a); M.T[i] = Val::Un(); continue; } r = x / y; }
+                else if (op == "MODULO") { if (y == 0) { divz(a); M.T[i] = Val::Un(); continue; } r = x % y; }
                 else if (op == "MAXIMUM") r = x > y ? x : y;
                 else r = x < y ? x : y;
                 M.T[i] = Val::I(r);
@@ -298,8 +309,14 @@ ModelRes modelBinary(const World& W, const std::string& op, int fa, const Table&
         }
         if (needDivZero) M.mustThrow.push_back(int(error::DIVIDE_BY_ZERO));
         if (needSubInf) M.mustThrow.push_back(int(error::SUBTRACT_INFINITY));
-        if (needInfInf) M.mustThrow.push_back(int(error::INFINITY_DIV_INFINITY));
+        if (proneDivZero) { (strict ? M.mustThrow : M.mayThrow).push_back(int(error::DIVIDE_BY_ZERO)); M.proneErrors++; }
+        if (needInfInf) { (strict ? M.mustThrow : M.mayThrow).push_back(int(error::INFINITY_DIV_INFINITY)); M.proneErrors++; }
         if (infMinusInf) M.mayThrow.push_back(int(error::SUBTRACT_INFINITY));
+        if (unspecOperand) {
+            M.mayThrow.push_back(int(error::DIVIDE_BY_ZERO));
+            M.mayThrow.push_back(int(error::SUBTRACT_INFINITY));
+            M.mayThrow.push_back(int(error::INFINITY_DIV_INFINITY));
+        }
         for (auto& v : M.T) if (!inRange(v, SC.range)) return undef("range-limit");
         return M;
     }
